@@ -44,7 +44,7 @@ CHECKS = {
             "closest_formula, closest_length, closest_size_mismatch, never_better_delta/closest, monotone_in_distance_delta/closest hold over every "
             "linearly ordered field, every weight vector (sign 0 treated as the code does), scalar or per-objective constants and absent/scalar/vector "
             "distances, including the call log of the wrapped function; model Core/Penalty.lean is diffed against DeltaPenalty/ClosestValidPenalty on all "
-            "sign patterns for 1-4 objectives with dyadic values and args/kwargs passthrough; the statement is an oracle on the real decorators.",
+            "sign patterns for 1-4 objectives with dyadic values and args/kwargs passthrough, and on 2-4 call sequences through ONE decorator instance with changing weight vectors (decorators_stateless: the model is a pure function of its arguments, so any history dependence of the implementation is a disagreement); the statement is an oracle on the real decorators.",
             TB + "IEEE arithmetic on the dyadic test inputs is exact (model uses Rat).",
             "Lean 4 proof over a hand-written model + differential correspondence + oracle"),
     "C10": ("partial",
@@ -67,8 +67,8 @@ CHECKS = {
             "sortStd_first_front_only, leading_spec) that the model of sortNondominated returns exactly the Pareto ranking, the leading fronts needed to "
             "reach k, every input once. Divide-and-conquer sort: certificate theorem C04.ranking_unique / checkCert_correct / checkRanking_sound (a rank "
             "function satisfying two local conditions IS the dominance depth) and the proved checker is run on every output of the real "
-            "sortLogNondominated; of its transcription (model B) only partition/truncation are proved (sortLog_partition_partial, sortLog_truncation_partial); "
-            "sortLog_terminates_Statement / sortLog_eq_sortStd_Statement stay unproved defs. Both procedures are diffed against the models on all populations "
+            "sortLogNondominated; of its transcription (model B) termination (sortLog_terminates), partition and truncation are proved (sortLog_partition_partial, sortLog_truncation_partial); "
+            "sortLog_eq_sortStd_Statement (its ranks are depths) stays an unproved def. Both procedures are diffed against the models on all populations "
             "n<=4 over {0,1,2}^m (m<=3), every k, both flags, plus random n<=40, m<=6; brute-force peeling is the oracle.",
             TB + "partial: the algorithmic correctness of the log-time sort is certified per run by a proved-sound checker, not proved for all inputs; "
             "exact regime (integer/dyadic fitnesses); fronts compared as sorted input indices (dict iteration order not modelled).",
@@ -104,6 +104,64 @@ CHECKS = {
             "modification, and the statement itself is evaluated as an oracle on the real archive (incl. overwriting every submitted object after each update).",
             TB + "Reading (DESIGN 6): similarity reflexive+symmetric, ignores identity, similar shown individuals have equal fitness (HoF); same number of objectives (Pareto); "
             "transitivity not needed. deepcopy modelled as fresh object id (checked by the oracle); similarity callable pure; IEEE products of the dyadic test inputs exact.",
+            "Lean 4 proof over a hand-written model + differential correspondence + oracle"),
+    "C11": ("full",
+            "Lean theorems (C11.complete_iff(+_count), typed_iff, searchSubtree_span/_total, height_eq/height_deepest, splice_welltyped/_complete, "
+            "gen_full/gen_grow/gen_half, cx_closed, cxlb_closed, mutUniform_closed, nodeRepl_closed, ephemeral_closed, insert_closed, shrink_closed, "
+            "staticLimit_sound/_closed, add_pools_ok) hold for every primitive set with the pool invariant, every tree and every tape; Core/GpTree.lean "
+            "transcribes the list-level code of deap.gp and is diffed against it by replaying the recorded random draws on 9 primitive sets x all "
+            "min<=max in 0..6 x all operators (bare and under staticLimit); the statement is evaluated as an independent oracle.",
+            TB + "list slicing/slice assignment/issubclass; randint/randrange/choice contracts; theorems speak about every result the generators return "
+            "(that a long-enough tape always yields a result is not proved).",
+            "Lean 4 proof over a hand-written model + tape-replay correspondence + oracle"),
+    "C12": ("partial",
+            "Lean theorems (C12.str_eq_render, compileSrc_eq, tokens_render, fromString_eq_reparse, roundtrip, eval_roundtrip, adf_eval(+_two)) prove for all "
+            "trees/arities that __str__'s stack machine prints the recursive text, that the tokenizer and the typed token loop of from_string parse it back to "
+            "a tree with the same arities that prints and evaluates identically, and that compileADF evaluates innermost-first; the compiled callable itself is "
+            "compared with evalTree (and with a direct Python interpreter as oracle) on 7 primitive sets incl. renamed/zero arguments, typed sets, ephemerals, "
+            "negative/float constants and two-level ADFs, trees of height 0..6 from generators and variation operators.",
+            TB + "CPython eval of the generated lambda source and repr/eval of numeric literals are trusted (reason for 'partial').",
+            "Lean 4 proof over a hand-written model + differential correspondence + oracle"),
+    "C13": ("partial",
+            "Lean theorems over R for all dimensions/populations: update_eq_spec (code form of Strategy.update = published (mu/mu_w,lambda) "
+            "equations, spelled out by spec_*), centroid_mean, order_independent (+ sort_perm/sort_desc/sort_best), C_symm, sigma_pos, "
+            "eig_reproduces (BD BD^T = C = B diag(d^2) B^T, B orthogonal, under the eigh contract), update_psd, history_consistent (all "
+            "consistency clauses after every update of every history), weights_pos_noninc_sum1, params_defaults/params_user/default_rates_ok, "
+            "lambda_default, generate_shape/sample_affine/sample_cov. The Float instance of the same definitions is diffed against numpy after "
+            "every real update from the strategy's own pre-update state (dims 2..8, thorough 2..20; 1..50 generations; 3 schemes; default and "
+            "user rates; 7 objectives incl. ties), and an independent numpy implementation of the published equations is the oracle, plus "
+            "bit-exact order independence on permuted populations.",
+            TB + "numpy.linalg.eigh/argsort are parameters of the model (contract V^T V = I, C = V diag(w) V^T checked numerically on every "
+            "answer); the N(0,I) sampler and IEEE rounding are trusted (Float model vs numpy: 1e-6 per entry along histories with cond(C) <= 1e8, "
+            "1e-8 for parameters); theorems are over the reals.",
+            "Lean 4 proof over a hand-written RealLike-polymorphic model + Float differential correspondence + independent-equations oracle"),
+    "C15": ("partial",
+            "Lean theorems (C15.hvCells_eq_volume: the grid specification equals the Lebesgue measure of the union of the boxes [p,ref) in EVERY dimension; "
+            "hvSlice_eq_hvCells (discrete Fubini) and hvSlice_eq_volume for the executable reference; hvCells_set/perm/dup/dominated/boundary, hv_mono, hv_nonneg, "
+            "hv_single, hv_inclusion_exclusion, hvIE_eq_hvCells, hv_1d(+_min), hv_2d staircase, indicator_least, population_coord/hv/hv_volume/default_ref) hold for all "
+            "point lists and reference points over Q. The dimension-sweep implementations (_hv.c rebuilt from the working tree on every run, pyhv.py) and the two wrappers "
+            "with both backends are diffed against hvSlice on exactly representable inputs (exhaustive small domain, every permutation for <=5 points, tie-heavy d<=7) "
+            "and checked by an independent inclusion-exclusion oracle.",
+            TB + "partial: the proof covers the specification and the wrappers; _hv.c/hv.cpp/pyhv.py are validated against it, not verified. IEEE products of the "
+            "dyadic test inputs are exact (checked per case); C compiler, extension loading, numpy.argmax/max trusted.",
+            "Lean 4 proof (Mathlib measure theory) over a specification-level model + differential correspondence of two implementations + oracle"),
+    "C18": ("partial",
+            "Lean theorems C18.* over histories of any length: logbook and chapters are the image of the surviving records (rows_in_order, chapter_fields, "
+            "chapters_aligned, del_exact_index/slice, del_out_of_range, pop_exact_deep/del_exact_deep at every chapter depth), select columns, stream delivers every "
+            "record at most/exactly once, pickle identity, compile_spec/multi_compile_spec; header_once only as header_once_partial (refuted at full strength by "
+            "header_once_fails = known finding F5 header-after-empty); Core/Logbook.lean diffed after every op against deap.tools.Logbook (deep chapter comparison); "
+            "statement evaluated as oracle with plain list semantics.",
+            TB + "text parser (rid >= 100000, header line = cell 'rid'); chapter alignment for records with uniform chapter names; column formatting not modelled; "
+            "that record builds depth-aligned logbooks from records with sub-dictionaries is harness-only.",
+            "Lean 4 proof over a hand-written model + differential correspondence + oracle + known-finding classification"),
+    "C05": ("full",
+            "Lean theorems C05.* (selection_size, selection_subperm, front_priority, one_partial_front_crowding_cut, backend_agnostic, crowding_spec, "
+            "selNSGA2_standard, selNSGA2_log_partial) hold over every ordered field for any list of fronts meeting C04's specification (proved for the standard "
+            "back-end, per-run certified for the log-time one); crowding_spec shows assignCrowdingDist equals the statement's formula on pairwise-distinct fronts. "
+            "The correspondence replays the cut on the implementation's fronts and float distances, compares distances exactly or within 1e-9, and whole selNSGA2 "
+            "on an exact family; the contract is evaluated as an oracle on the returned objects for both nd values.",
+            TB + "float distances are compared with tolerance outside the exact family; the log back-end's fronts satisfy the spec by C04's per-run certificate, "
+            "not by a general proof.",
             "Lean 4 proof over a hand-written model + differential correspondence + oracle"),
 }
 
